@@ -70,6 +70,8 @@ func (lib *KnowledgeLibrary) RemoveRuleEntry(ruleName, name string, version stri
 			lib.Library[nameVersion].RuleEntries[ruleName].Deleted = true
 			delete(lib.Library[nameVersion].RuleEntries, ruleName)
 			lib.Library[nameVersion].RuleEntries[ruleEntry.RuleName] = ruleEntry
+			lib.Library[nameVersion].WorkingMemory.Prune(lib.Library[nameVersion])
+			lib.Library[nameVersion].WorkingMemory.IndexVariables()
 		}
 	}
 }
@@ -178,6 +180,11 @@ func (e *KnowledgeBase) MakeCatalog() *Catalog {
 		MemoryExpressionAtomVariableMap: nil,
 	}
 	for _, v := range e.RuleEntries {
+		if v.Deleted {
+			// a removed rule stays removed: the stream has no field for the Deleted flag
+
+			continue
+		}
 		v.MakeCatalog(catalog)
 	}
 	e.WorkingMemory.MakeCatalog(catalog)
@@ -277,6 +284,8 @@ func (e *KnowledgeBase) RemoveRuleEntry(name string) {
 		e.RuleEntries[name].Deleted = true
 		delete(e.RuleEntries, name)
 		e.RuleEntries[ruleEntry.RuleName] = ruleEntry
+		e.WorkingMemory.Prune(e)
+		e.WorkingMemory.IndexVariables()
 	}
 }
 
